@@ -408,19 +408,33 @@ instance (ps : List Path) : Decidable (noOverlap ps) := by unfold noOverlap; exa
 
 /-! ## static validation (`validateFieldMapping`, `checkAndExtractFieldType`) -/
 
+/-- structural facts of the static checker -/
+structure ValidateFacts where
+  /-- `checkAndExtractFieldType` rejects a last path segment applied to a type that has neither
+      fields nor keys (and is not an interface) -/
+  rejectsTrailingSegment : Bool
+  /-- every run-time checker closure sees the field type of its own mapping (not the variable
+      shared by all iterations of the loop) -/
+  checkerPerMapping : Bool
+  /-- the checker's stream form keeps the chunk type `map[string]any` -/
+  streamCheckerKeepsChunkType : Bool
+  deriving DecidableEq, Repr
+
 /-- `checkAndExtractFieldType`: `(type reached, intermediate interface)`; `none` = error -/
-def extractTy : FTy → Path → Option (FTy × Bool)
+def extractTy (rejectTrailing : Bool) : FTy → Path → Option (FTy × Bool)
   | t, [] => some (t, false)
   | t, s :: r =>
     match t with
-    | .map e => extractTy e r
+    | .map e => extractTy rejectTrailing e r
     | _ =>
       match structOf t with
       | some fs => match fieldTy fs s with
-        | some ft => extractTy ft r
+        | some ft => extractTy rejectTrailing ft r
         | none => none
       | none =>
-        if r.isEmpty then some (t, false)            -- last segment on a non-container: kept as is
+        if r.isEmpty then
+          (if t = .any then some (t, false)
+           else if rejectTrailing then none else some (t, false))
         else if t = .any then some (.any, true)
         else none
 
@@ -447,8 +461,8 @@ structure Mapping where
 /-- per mapping: `none` = static error; `some none` = no run-time check; `some (some st)` =
     run-time checker against the successor field type `st` (`strict` = the interface-path
     checker, which does not admit a nil value) -/
-def validateOne (pt st : FTy) (m : Mapping) : Option (Option (FTy × Bool)) :=
-  match extractTy pt m.src, extractTy st m.dst with
+def validateOne (vf : ValidateFacts) (pt st : FTy) (m : Mapping) : Option (Option (FTy × Bool)) :=
+  match extractTy vf.rejectsTrailingSegment pt m.src, extractTy vf.rejectsTrailingSegment st m.dst with
   | some (pf, pI), some (sf, sI) =>
     if sI then (if sf = .any then some none else none)
     else if pI then some (some (sf, true))
@@ -459,13 +473,13 @@ def validateOne (pt st : FTy) (m : Mapping) : Option (Option (FTy × Bool)) :=
   | _, _ => none
 
 /-- the whole-edge preconditions of `validateFieldMapping` -/
-def validateEdge (pt st : FTy) (ms : List Mapping) : Bool :=
+def validateEdge (vf : ValidateFacts) (pt st : FTy) (ms : List Mapping) : Bool :=
   let fromAll := ms.any (fun m => m.src.isEmpty)
   let toAll := ms.any (fun m => m.dst.isEmpty)
   if fromAll && toAll then false
   else if !toAll && !(structOrMap st || st == .any) then false
   else if !fromAll && !structOrMap pt then false
-  else ms.all (fun m => (validateOne pt st m).isSome)
+  else ms.all (fun m => (validateOne vf pt st m).isSome)
 
 /-- the run-time checker installed for a mapping -/
 def runtimeCheck (chk : Option (FTy × Bool)) (a : Taken) : Bool :=
@@ -498,9 +512,22 @@ def fieldMapE (f : TakeFacts) (allowMissing : Bool) (pt : FTy) (v : FVal) :
       | .ok l => .ok ((m, a) :: l)
       | .error e => .error e
 
+/-- the checker a mapping gets: with `checkerPerMapping` its own successor field type, otherwise
+    the one the shared loop variable holds after the loop (the last mapping's) -/
+def checkerOf (vf : ValidateFacts) (pt st : FTy) (ms : List Mapping) (m : Mapping) : Option (FTy × Bool) :=
+  match (validateOne vf pt st m).getD none with
+  | none => none
+  | some (ty, strict) =>
+    if vf.checkerPerMapping then some (ty, strict)
+    else match ms.getLast? with
+      | some l => match extractTy vf.rejectsTrailingSegment st l.dst with
+        | some (lt, _) => some (lt, strict)
+        | none => some (ty, strict)
+      | none => some (ty, strict)
+
 /-- the checker handler appended after `fieldMap` on the same edge -/
-def checkE (pt st : FTy) (l : List (Mapping × Taken)) : Bool :=
-  l.all (fun (m, a) => runtimeCheck ((validateOne pt st m).getD none) a)
+def checkE (vf : ValidateFacts) (pt st : FTy) (ms : List Mapping) (l : List (Mapping × Taken)) : Bool :=
+  l.all (fun (m, a) => runtimeCheck (checkerOf vf pt st ms m) a)
 
 /-- one data edge into the successor: predecessor output type and value, its mappings -/
 structure Edge where
@@ -510,22 +537,23 @@ structure Edge where
   deriving Repr
 
 /-- the edge handlers of all predecessors, in the given order -/
-def edgesMap (f : TakeFacts) (allowMissing : Bool) (st : FTy) :
+def edgesMap (f : TakeFacts) (vf : ValidateFacts) (allowMissing : Bool) (st : FTy) :
     List Edge → Except RunErr (List (Path × Taken))
   | [] => .ok []
   | e :: rest =>
     match fieldMapE f allowMissing e.pt e.v e.ms with
     | .error err => .error err
     | .ok l =>
-      if checkE e.pt st l then
-        match edgesMap f allowMissing st rest with
+      if checkE vf e.pt st e.ms l then
+        match edgesMap f vf allowMissing st rest with
         | .ok l' => .ok (l.map (fun (m, a) => (m.dst, a)) ++ l')
         | .error err => .error err
       else .error .request
 
 /-- what the successor receives: edge handlers, merge, `convertTo` (in the order given) -/
-def runNode (f : TakeFacts) (allowMissing : Bool) (st : FTy) (es : List Edge) : Except RunErr FVal :=
-  match edgesMap f allowMissing st es with
+def runNode (f : TakeFacts) (vf : ValidateFacts) (allowMissing : Bool) (st : FTy) (es : List Edge) :
+    Except RunErr FVal :=
+  match edgesMap f vf allowMissing st es with
   | .error e => .error e
   | .ok l =>
     match convertTo st l with
@@ -534,8 +562,8 @@ def runNode (f : TakeFacts) (allowMissing : Bool) (st : FTy) (es : List Edge) : 
 
 /-- compile-time acceptance of one successor's declarations: overlap detection, duplicate
     check, static validation of every edge -/
-def compileOK (tf : TrieFacts) (st : FTy) (decls : List (FTy × List Mapping)) : Bool :=
+def compileOK (tf : TrieFacts) (vf : ValidateFacts) (st : FTy) (decls : List (FTy × List Mapping)) : Bool :=
   acceptedOverlap tf (decls.map (fun d => d.2.map (·.dst)))
-    && decls.all (fun d => d.2.isEmpty || validateEdge d.1 st d.2)
+    && decls.all (fun d => d.2.isEmpty || validateEdge vf d.1 st d.2)
 
 end EinoV.C15
